@@ -545,21 +545,26 @@ type Known struct {
 type knownSet []Known
 
 func loadKnown(root, id string) knownSet {
-	b, err := os.ReadFile(filepath.Join(root, "known_findings.json"))
-	if err != nil {
-		return nil
-	}
-	var all struct {
-		Findings []Known `json:"findings"`
-	}
-	if err := json.Unmarshal(b, &all); err != nil {
-		fmt.Fprintln(os.Stderr, "known_findings.json:", err)
-		os.Exit(2)
-	}
 	var ks knownSet
-	for _, k := range all.Findings {
-		if k.Property == id && k.Status == "open" {
-			ks = append(ks, k)
+	// known_findings.json is the committed list; checks/<id>/findings.json is
+	// a per-check staging file used while a check is being developed.
+	for _, path := range []string{filepath.Join(root, "known_findings.json"),
+		filepath.Join(root, "checks", strings.ToLower(id), "findings.json")} {
+		b, err := os.ReadFile(path)
+		if err != nil {
+			continue
+		}
+		var all struct {
+			Findings []Known `json:"findings"`
+		}
+		if err := json.Unmarshal(b, &all); err != nil {
+			fmt.Fprintln(os.Stderr, path+":", err)
+			os.Exit(2)
+		}
+		for _, k := range all.Findings {
+			if k.Property == id && k.Status == "open" {
+				ks = append(ks, k)
+			}
 		}
 	}
 	return ks
